@@ -913,6 +913,13 @@ func (a *Act) paramFacts(st *State, v Val, nonNil bool) {
 		return
 	}
 	vc := a.vc
+	if si := vc.g.structInfoOf(v.T); si != nil && v.S != "" {
+		// references held inside a struct-valued parameter existed before the call
+		for _, f := range si.Fields {
+			a.paramFacts(st, Val{S: app(f.Sel, v.S), Sort: f.Sort, T: f.T}, false)
+		}
+		return
+	}
 	switch v.T.Underlying().(type) {
 	case *types.Pointer, *types.Map, *types.Chan:
 		vc.assume("true", "(<= (base "+v.S+") "+st.top+")")
